@@ -71,7 +71,7 @@ for d in sorted(SRC.iterdir()):
             "nonzero_final": sorted(set(det2 + err2)), "violations_final": sorted(set(det2)), "analysis_error_final": sorted(set(err2)),
             "files": sorted(set(re.findall(r"^\+\+\+ b/(\S+)", (d / "patch.diff").read_text(), re.M))),
             # self-validation expects silence from the checks that can read the twin; those that end in exit 2 on it are listed above, not hidden
-            "props_checked": [p for p in props_for(d / "patch.diff", prop) if p not in err2],
+            "props_checked": [p for p in props_for(d / "patch.diff", prop) if p not in err2 and p not in det2],   # a twin that still draws a VIOLATION is listed under violations_final and described in DESIGN, not asserted silent
         }
         out = VERIF / "seeded_equiv" / sid
     out.mkdir(parents=True, exist_ok=True)
